@@ -83,7 +83,7 @@ extern "C" void h_named(void) {
         { "1", 1 }, { "Pressure", b.P }, { "AbsoluteTemperature", b.tfac }, { "Length", b.L }, { "Time", b.T }, { "RunTime", 1 }, { "Mass", b.Mass }, { "Permeability", mD },
         { "Area", b.L * b.L }, { "Transmissibility", cP * b.VR / (b.T * b.P) }, { "GasDissolutionFactor", b.VG / b.VL }, { "OilDissolutionFactor", b.VL / b.VG },
         { "LiquidSurfaceVolume", b.VL }, { "GasSurfaceVolume", b.VG }, { "ReservoirVolume", b.VR }, { "GeometricVolume", L3 }, { "Density", b.Mass / L3 },
-        { "PolymerDensity", b.Mass / b.VL }, { "Salinity", b.Mass / b.VL }, { "Viscosity", cP }, { "Timestep", b.T }, { "SurfaceTension", 1.0e-3 }, { "Energy", b.E },
+        { "PolymerDensity", b.Mass / b.VL }, { "Salinity", b.Mass / b.VL }, { "FoamDensity", b.Mass / b.VG }, { "FoamSurfactantConcentration", b.Mass / b.VL }, { "Unit", 1 }, { "Viscosity", cP }, { "Timestep", b.T }, { "SurfaceTension", 1.0e-3 }, { "Energy", b.E },
         { "PPM", 1.0e-6 }, { "Moles", b.mol }, { "Ymodule", 1.0e9 } };
     for (const auto& e : tab) { const auto& d = us.getDimension(std::string(e.n)); CHECK(close(d.getSIScaling(), e.f, 1e-12)); CHECK(d.getSIOffset() == 0.0); }
     const auto& t = us.getDimension(std::string("Temperature")); CHECK(close(t.getSIScaling(), b.tfac, 1e-12) && close(t.getSIOffset(), b.toff, 1e-12));
